@@ -29,7 +29,6 @@ import pandas as pd
 import numpy as np
 
 
-from holopy.core.metadata import copy_metadata
 from holopy.core.holopy_object import HoloPyObject, FullLoader
 from holopy.core.io.io import pack_attrs, unpack_attrs
 from holopy.core.utils import ensure_scalar
@@ -107,11 +106,16 @@ class FitResult(HoloPyObject):
     def forward(self, pars):
         if hasattr(self.data, 'original_dims'):
             # dealing with subset data
-            original_dims = self.data.original_dims
+            original_dims = dict(self.data.original_dims)
+            if 'flat' in original_dims:
+                # a subset of points that were flat already, not of an image
+                original_dims['flat'] = pd.MultiIndex.from_tuples(
+                    original_dims['flat'], names=['x', 'y', 'z'])
             shape = [len(coord) for coord in original_dims.values()]
+            # (copy_metadata would re-align flat points with the subset)
             schema = xr.DataArray(np.zeros(shape), dims=list(original_dims),
-                                  coords=original_dims)
-            schema = copy_metadata(self.data, schema, do_coords=False)
+                                  coords=original_dims, name=self.data.name,
+                                  attrs=self.data.attrs)
         else:
             schema = self.data
         return self.model.forward(pars, schema)
